@@ -144,3 +144,13 @@ package ice
 //@   site call candidatePairFunc#0 assert exactly-once-per-pop: pending
 //@   site call candidatePairFunc#0 ghost pending := false
 //@   site call Done#1 assert waitgroup-done-on-exit: true
+
+// The end-of-gathering marker: one nil candidate per completed cycle, never
+// from a cycle that was cancelled (Restart / Close / a newer GatherCandidates).
+//@ func (*Agent).setGatheringState$1
+//@   props C11 C18
+//@   site call EnqueueCandidate#1 assert nil-only-from-a-live-cycle: !gatherCtx.gDone
+//@   site call EnqueueCandidate#1 assert nil-only-on-the-transition-to-complete: newState == GatheringStateComplete && a.gatheringState != GatheringStateComplete && arg1 == nil
+//@   site store gatheringState#1 assert state-only-from-a-live-cycle: !gatherCtx.gDone && value == newState
+//@   ensures cancelled-cycle-changes-nothing: old(gatherCtx.gDone) ==> unchangedExcept("Chan.closed") && applied == old(applied)
+//@   ensures live-cycle-applies: !old(gatherCtx.gDone) ==> applied && a.gatheringState == newState
